@@ -189,6 +189,27 @@ Refused(t, r, c) ==
     SelectSeq(RefusedCandidates(t, r, c),
               LAMBDA a : Verdict(t, r, c, ToStd(a)) = "refused")
 
+(* standards on which the manual is silent (accepted or refused, but the   *)
+(* call must return): abbreviated matrices with a row (column) for a port  *)
+(* that does not detect (drive)                                            *)
+UnspecCandidates(t, r, c) ==
+    LET p == Ports(r, c)
+        s1(a, mr, mc) == [op |-> "add", sid |-> 910, ep |-> "single", nomap |-> 0,
+                          sr |-> 1, sc |-> 1, sdiag |-> 1, mr |-> mr, mc |-> mc,
+                          map |-> <<a>>, vals |-> <<"S">>]
+        t2(mr, mc) == [op |-> "add", sid |-> 911, ep |-> "through", nomap |-> 0,
+                       sr |-> 2, sc |-> 2, sdiag |-> 0, mr |-> mr, mc |-> mc,
+                       map |-> <<1, p>>, vals |-> <<"Z", "O", "O", "Z">>]
+        fl(mr, mc) == [op |-> "add", sid |-> 912, ep |-> "mapped", nomap |-> 1,
+                       sr |-> p, sc |-> p, sdiag |-> 0, mr |-> mr, mc |-> mc,
+                       map |-> Iota(p), vals |-> [q \in 1..(p * p) |-> "P"]]
+    IN <<s1(p, 1, 1), s1(p, r, 1), s1(p, 1, c), t2(2, 2), t2(r, 2), t2(2, c),
+         fl(p, p), fl(p, c), fl(r, p)>>
+
+Unspec(t, r, c) ==
+    SelectSeq(UnspecCandidates(t, r, c),
+              LAMBDA a : Verdict(t, r, c, ToStd(a)) = "unspecified")
+
 InsertAt(s, k, x) == SubSeq(s, 1, k) \o <<x>> \o SubSeq(s, k + 1, Len(s))
 
 (* ---- steps ---- *)
@@ -225,10 +246,13 @@ C01Row(t, r, c, v) ==
         bad  == TLCEval(Refused(t, r, c))
         all  == TLCEval(IF bad = <<>> THEN adds
                 ELSE InsertAt(adds, v % (Len(adds) + 1), bad[(v % Len(bad)) + 1]))
+        uns  == TLCEval(Unspec(t, r, c))
     IN [name |-> Name("c01", t, r, c, v),
         steps |-> <<Life(t, r, c, NfOf(v), FormOf(v), "none", 0, all, <<>>)>>
                   \o all
-                  \o <<Op("solve"), Op("addcal"), Apply(v), Op("saveeq")>>]
+                  \o <<Op("solve"), Op("addcal"), Apply(v), Op("saveeq")>>
+                  \* last: a standard the manual does not classify
+                  \o (IF uns = <<>> THEN <<>> ELSE <<uns[(v % Len(uns)) + 1]>>)]
 
 (* allocations the manual excludes *)
 BadAllocRows(u) ==
@@ -261,6 +285,42 @@ C01Rows(u) ==
 (* (the dummy parameter keeps TLC from pre-evaluating the tables that are  *)
 (* not asked for)                                                         *)
 C01Table(u) == C01Rows(u) \cup BadAllocRows(u) \cup ProtocolRows(u)
+
+-----------------------------------------------------------------------------
+(* hostile: calls out of order, every refused and every unclassified       *)
+(* standard, S matrices of which only some rows / columns are given; then  *)
+(* a regular calibration in the same life.  For the aggregate checks of    *)
+(* C03 / C11 (no crash, documented failure, state unchanged).              *)
+PartialS(t, r, c) ==
+    LET p == Ports(r, c)
+        mp(sr, sc, m) == [op |-> "add", sid |-> 920 + 3 * sr + sc, ep |-> "mapped",
+                          nomap |-> 0, sr |-> sr, sc |-> sc, sdiag |-> 0,
+                          mr |-> r, mc |-> c, map |-> m,
+                          vals |-> [q \in 1..(sr * sc) |-> "P"]]
+    IN (IF p >= 2 THEN <<mp(2, 1, <<1, 2>>), mp(1, 2, <<2, 1>>)>> ELSE <<>>)
+       \o (IF p >= 3 THEN <<mp(3, 2, <<1, 2, 3>>), mp(2, 3, <<3, 1, 2>>)>> ELSE <<>>)
+
+HostileRow(t, r, c, form) ==
+    LET rec  == TLCEval(Recipe(t, r, c, 1))
+        adds == TLCEval([i \in 1..Len(rec) |-> Plain(t, r, c, rec[i])])
+        odd  == TLCEval(Refused(t, r, c) \o Unspec(t, r, c))
+    IN [name |-> Name("hostile-" \o form, t, r, c, 0),
+        steps |-> <<Life(t, r, c, 2, form, "none", 0, adds, <<>>),
+                    Op("solve"), Op("addcal"), Apply(0)>>
+                  \o odd \o <<Op("solve")>> \o adds
+                  \o <<Op("solve"), Op("addcal"), Op("addcal"), Apply(1)>>]
+
+PartialRow(t, r, c, i) ==
+    [name |-> Name("hostile-partial", t, r, c, i),
+     steps |-> <<Life(t, r, c, 1, "m", "none", 0, <<>>, <<>>)>>
+               \o <<PartialS(t, r, c)[i]>> \o <<Op("solve")>>]
+
+HostileTable(u) ==
+    UNION {{HostileRow(x[1], x[2], x[3], f) : f \in {"m", "ab"}} :
+           x \in {y \in Types \X (1..MaxDim) \X (1..MaxDim) : DimsOK(y[1], y[2], y[3])}}
+    \cup UNION {{PartialRow(x[1], x[2], x[3], i) : i \in 1..Len(PartialS(x[1], x[2], x[3]))} :
+           x \in {y \in Types \X (1..MaxDim) \X (1..MaxDim) : DimsOK(y[1], y[2], y[3])}}
+    \cup BadAllocRows(u)
 
 -----------------------------------------------------------------------------
 (* C17 *)
@@ -411,6 +471,7 @@ Table ==
     CASE Which = "c01" -> C01Table(0)
       [] Which = "c17" -> C17Table(0)
       [] Which = "c20" -> C20Table(0)
+      [] Which = "hostile" -> HostileTable(0)
 
 ASSUME JsonSerialize(IOEnv.CALFLOW_OUT, [rows |-> Table])
 ASSUME PrintT(<<"CALFLOWTABLE", Which, Cardinality(Table)>>)
